@@ -4586,6 +4586,13 @@ XPath::predicates(
         }
         else
         {
+            // The context node list was modified in place, so a
+            // position cached by the execution context while
+            // evaluating the previous predicate is no longer valid.
+            // Pushing the list again resets the cache.
+            executionContext.popContextNodeList();
+            executionContext.pushContextNodeList(subQueryResults);
+
             theLength = subQueryResults.getLength();
         }
     }
